@@ -42,6 +42,8 @@ def draw_knobs(rng, cfg):
     k["sync_start"] = rng.random() < 0.3
     k["long_rate"] = rng.choice([0.0, 0.0, 0.1, 0.3])
     k["p_gil"] = rng.choice([0.3, 0.6, 0.9])
+    k["repeat_rate"] = rng.choice([0.0, 0.1, 0.25])
+    k["fine_m2"] = rng.random() < 0.45
     return k
 
 
@@ -69,7 +71,7 @@ def _gen_setup(rng, at, nshared):
             live.append(len(ops) - 1)
 
 
-def _thread_op(rng, at, knobs, shared, own, operator):
+def _thread_op(rng, at, knobs, shared, own, operator, all_ops=None, me=None):
     if operator and rng.random() < 0.6:
         r = rng.random()
         if r < 0.4:
@@ -82,6 +84,19 @@ def _thread_op(rng, at, knobs, shared, own, operator):
             return {"op": "cache_configure", "args": [], "kwargs": kw}
         return {"op": "cache_info", "args": []}
     live = list(shared) + list(own)
+    if all_ops and rng.random() < knobs.get("repeat_rate", 0.0):
+        # re-issue an earlier derivation verbatim: through the LRUs it returns the *same object*
+        # another thread may be holding (shared-by-cache objects, not only shared-by-pool ones)
+        cands = [o for o in all_ops if o["op"] in W.URLISH_OPS and (o.get("thread", -1) < 0 or o.get("thread") == me)]
+        if cands:
+            o = copy.deepcopy(rng.choice(cands))
+            o.pop("obs", None)
+            o.pop("thread", None)
+            if rng.random() < knobs["deep_rate"]:
+                order = list(W.ALL_READS)
+                rng.shuffle(order)
+                o["obs"] = order
+            return o
     if own and rng.random() > knobs["same_object_bias"]:
         pick = own
     else:
@@ -148,9 +163,19 @@ def ref_generate(seed, cfg):
     sync_op = None
     if knobs.get("sync_start"):
         # every thread starts with the very same call: collide inside one LRU entry / one memo
-        if shared and rng.random() < 0.5:
+        r_sync = rng.random()
+        if shared and r_sync < 0.3:
             sync_op = W.gen_read(rng, [rng.choice(shared)])
             sync_op.pop("other", None) if sync_op["op"] != "cmp" else None
+        elif shared and r_sync < 0.7:
+            # the same derivation of the same shared object in every thread: the LRUs hand the very
+            # same result object to all of them while each is still deriving / observing it
+            sync_op = W.gen_derivation(rng, at, [rng.choice(shared)])
+            if sync_op.get("other") is not None:
+                sync_op["other"] = rng.choice(shared)
+            order = list(W.ALL_READS)
+            rng.shuffle(order)
+            sync_op["obs"] = order
         else:
             sync_op = W.gen_constructor(rng, at, shared)
             if rng.random() < knobs.get("long_rate", 0.0) * 2:
@@ -161,7 +186,7 @@ def ref_generate(seed, cfg):
             if j == 0 and sync_op is not None and operator_t != t:
                 op = copy.deepcopy(sync_op)
             else:
-                op = _thread_op(rng, at, knobs, shared, own, operator_t == t)
+                op = _thread_op(rng, at, knobs, shared, own, operator_t == t, ops, t)
             op["thread"] = t
             idx = len(ops)
             ops.append(op)
@@ -241,6 +266,26 @@ def conc_run(case):
                 v["thread"] = t
                 viols.append(v)
 
+    if knobs.get("fine_m2"):
+        fine_seen = set()
+
+        def fine(t, code, off):
+            ents = tr.check_fast()
+            if not ents:
+                return
+            # identity changed somewhere: do the by-value comparison for everything (rare)
+            for v in tr.check(-1, {"op": "<mid-operation, after a store/call in %s line %d>" % (code.co_name, code.co_firstlineno)}):
+                key = (v["kind"], v.get("obj"), v.get("key"))
+                if key in fine_seen:
+                    continue
+                fine_seen.add(key)
+                v["thread"] = t
+                v["where"] = [code.co_name, code.co_firstlineno, off]
+                v["fine_grained"] = True
+                viols.append(v)
+
+        sc.fine = fine
+        sc.probes["runs_with_fine_grained_memo_monitor"] = 1
     sc.install()
     try:
         finished = sc.run([body] * nthreads, timeout=90.0)
